@@ -1439,6 +1439,15 @@ func (w *Walker) lazyBool(e ast.Expr, st *State) *Term {
 	if len(rs) != 1 || rs[0].st != st {
 		return nil
 	}
+	// only over values that cannot change between the place where the comparison is written and the place where it is
+	// tested (parameters, configuration): a comparison of mutable state is decided where it stands
+	for _, o := range []*Term{ls[0].t, rs[0].t} {
+		for _, rd := range o.Reads {
+			if !strings.HasPrefix(rd, "cfg.") {
+				return nil
+			}
+		}
+	}
 	lit, ok := cmpLit(be.Op, ls[0].t, rs[0].t, false)
 	if !ok {
 		return nil
